@@ -164,6 +164,11 @@ func (p *Prog) pkgOfFn(f *ssa.Function) *ssa.Package {
 		if o := f.Origin(); o != nil && o.Pkg != nil {
 			return o.Pkg
 		}
+		if obj := f.Object(); obj != nil && obj.Pkg() != nil && f.Prog != nil {
+			if sp := f.Prog.Package(obj.Pkg()); sp != nil {
+				return sp
+			}
+		}
 		f = f.Parent()
 	}
 	return nil
